@@ -477,6 +477,62 @@ fn conditions(ctx: &mut Ctx, base: &Xstate) {
     ctx.tag("conditions");
 }
 
+/// a tag is replaced by what is inserted, also when the new tag value is "equal" to the old one and differs from it
+/// only in its own tags (at any depth): `get-tag` gives back exactly what was inserted last
+fn reinsertion(ctx: &mut Ctx, base: &Xstate) {
+    for round in 0..(ctx.n / 20).max(60) {
+        let v0 = gen_value(&mut ctx.rng, 2);
+        let key = Cell::from(*ctx.rng.pick(&["k", "a", "#fmt", "é"]));
+        let x = strip(&gen_value(&mut ctx.rng, 2));
+        let d = 1 + (round as u32 % 2);
+        let xt = match round % 4 { 0 => x.clone().with_tags(Xmap::new()), _ => tag_deep(&mut ctx.rng, &x, d) };
+        // first the bare value and then the tagged one, or the other way round
+        let (first, second) = if round % 3 == 0 { (xt.clone(), x.clone()) } else { (x.clone(), xt.clone()) };
+        let a = run_quiet(base, "insert-tag", &[v0.clone(), first.clone(), key.clone()]);
+        let v1 = match a.1.as_ref() { Some(s) if s.len() == 1 => s[0].clone(), _ => { ctx.oracle_fail(format!("C13 insert-tag {} {} {}", canon::cell(&v0), canon::cell(&first), canon::cell(&key)), "a value".into(), a.0.clone()); continue; } };
+        let args = [v1.clone(), second.clone(), key.clone()];
+        let b = run_quiet(base, "insert-tag", &args);
+        ctx.case(format!("C13 insert-tag {}", canon::stack_str(&args)).trim_end().to_string(), b.0.clone());
+        let v2 = match b.1.as_ref() { Some(s) if s.len() == 1 => s[0].clone(), _ => { ctx.oracle_fail(format!("C13 insert-tag {}", canon::stack_str(&args)), "a value".into(), b.0.clone()); continue; } };
+        let g = run_quiet(base, "get-tag", &[v2.clone(), key.clone()]);
+        let exp = canon::ok_stack(&[second.clone()]);
+        ctx.check(g.0 == exp, || format!("C13 get-tag after insert-tag {} and then insert-tag {} under {} on {}", canon::cell(&first), canon::cell(&second), canon::cell(&key), canon::cell(&v0)), || exp.clone(), || g.0.clone());
+        ctx.tag("reinsertion:equal-value-other-tags");
+    }
+}
+
+/// the variables that words consult (`big?`, `offset`) hold values like any other: a number that carries tags (every
+/// number a read word hands back does) selects what the bare number selects
+fn settings_with_tags(ctx: &mut Ctx, base: &Xstate) {
+    const SNIPPETS: &[&str] = &[
+        "|00 34 12| open-bitstr u8 drop s ! big? u16", "s ! big? 258 u16!", "s ! big? |00 00 00 01| open-bitstr 24 int", "s ! big? |3f 80 00 00| open-bitstr f32",
+        "s ! big? [ 1 u16! 2.5 f32! 7 24 int! ] >bitstr", "|00 34 12 56| open-bitstr s 8 * ! offset u8 offset", "|00 34 12 56| open-bitstr s 8 * ! offset remain",
+    ];
+    for v in [Cell::Int(0), Cell::Int(1), Cell::Int(2)] {
+        for snippet in SNIPPETS {
+            let run1 = |s: &Cell| -> (String, Option<Vec<Cell>>) {
+                let mut xs = base.clone();
+                let r = crate::guarded(|| { xs.push_data(s.clone())?; xs.eval("var s")?; xs.eval(snippet) });
+                match r {
+                    None => ("panic".into(), None),
+                    Some(Ok(())) => { let st = canon::stack(&xs); (format!("ok {}", st.iter().map(canon::cell).collect::<Vec<_>>().join(" ")), Some(st)) }
+                    Some(Err(e)) => (format!("err {}", canon::err(&e).split(':').next().unwrap_or("")), None),
+                }
+            };
+            let plain = run1(&v);
+            // a number as the read words hand it back, a formatted constant, an empty tag map, tags on tags
+            let read = { let mut xs = base.clone(); let _ = xs.eval(&format!("|{:02x}| open-bitstr u8 close-bitstr", match &v { Cell::Int(i) => *i, _ => 0 })); xs.get_data(0).cloned().unwrap_or(v.clone()) };
+            let copies = [read, v.clone().with_tags(Xmap::new()), tag_deep(&mut ctx.rng, &v, 1), tag_deep(&mut ctx.rng, &v, 2)];
+            for t in copies.iter() {
+                let got = run1(t);
+                // (what the snippets leave are results of words that attach their own tags: compared with their tags)
+                ctx.check(plain.0 == got.0, || format!("C13 `{}` with s={} | tagged: s={}", snippet, canon::cell(&v), canon::cell(t)), || plain.0.clone(), || got.0.clone());
+            }
+        }
+    }
+    ctx.tag("settings-with-tags");
+}
+
 pub fn run(ctx: &mut Ctx) {
     c_api_blind(ctx);
     let mut base = Xstate::boot().unwrap();
@@ -521,4 +577,6 @@ pub fn run(ctx: &mut Ctx) {
         ctx.tag(&format!("state-words:closes={}", closes));
         ctx.check(matches!(r, Some(Ok(()))) && top == Some(Cell::Nil), || format!("C13 `{}`", full), || "ok, nil (no tags)".into(), || format!("{:?} top={:?}", r, top));
     }
+    reinsertion(ctx, &base);
+    settings_with_tags(ctx, &base);
 }
